@@ -35,9 +35,46 @@ def rand_base(rng, nat=None, ncond=None, depth=None, p_const=0.05, knobs=None):
             A = fml.rand_formula(rng, sig, depth, p_const)
             conds.append((Or(A, fml.rand_formula(rng, sig, 1, 0.0)) if rng.random() < 0.5 else A, A))
             continue
+        if rng.random() < knobs.get('conjcons', 0.1):
+            # consequent = conjunction of 2-4 literals: non-falsification CNF with several clauses
+            lits = []
+            for a in rng.sample(sig, min(len(sig), rng.randint(2, 4))):
+                lits.append(V(a) if rng.random() < 0.7 else Not(V(a)))
+            B = lits[0]
+            for l in lits[1:]:
+                B = And(B, l)
+            A = fml.rand_formula(rng, sig, min(depth, 1), 0.0)
+            conds.append((B, A))
+            continue
         B = fml.rand_formula(rng, sig, depth, p_const)
         A = fml.rand_formula(rng, sig, depth, p_const)
         conds.append((B, A))
+    return sig, conds
+
+
+def multi_exception_base(rng):
+    """class b with properties q_j; m exception classes e_j (penguin, kiwi, ...) each negating 'its'
+    property: two layers, the upper one with several independent rules, so queries can force a TIE of
+    several incomparable / equal-cardinality falsification sets in the upper layer"""
+    m = rng.randint(2, 3)
+    props = ['q%d' % j for j in range(m)]
+    exc = ['e%d' % j for j in range(m)]
+    sig = ['b'] + props + exc
+    if len(sig) > 6:
+        sig = sig[:6]
+        m = 2
+        props, exc = ['q0', 'q1'], ['e0', 'e1']
+        sig = ['b'] + props + exc
+    conds = [(V(p), V('b')) for p in props]
+    for j in range(m):
+        conds.append((V('b'), V(exc[j])))
+        conds.append((Not(V(props[j])), V(exc[j])))
+    if rng.random() < 0.4 and len(sig) < 6:
+        sig.append('x')
+        conds.append((V('x'), V('b')))
+    if rng.random() < 0.3:
+        conds.append((And(V(props[0]), V(props[1])), And(V('b'), Not(V(exc[0])))))
+    rng.shuffle(conds)
     return sig, conds
 
 
@@ -143,8 +180,8 @@ def gen_base(rng, want='strong', family=None, max_tries=400, **kw):
     'weak_or_strong' | 'any'."""
     for _ in range(max_tries):
         fam = family or rng.choices(
-            ['rand', 'chain', 'indep', 'd4', 'weak'],
-            [6, 1, 2, 0.5, 3 if want in ('weak', 'weak_or_strong') else 0])[0]
+            ['rand', 'chain', 'indep', 'd4', 'multiex', 'weak'],
+            [6, 1, 2, 0.5, 1.5, 3 if want in ('weak', 'weak_or_strong') else 0])[0]
         if fam == 'rand':
             sig, conds = rand_base(rng, **kw)
         elif fam == 'chain':
@@ -153,6 +190,8 @@ def gen_base(rng, want='strong', family=None, max_tries=400, **kw):
             sig, conds = indep_layer_base(rng)
         elif fam == 'd4':
             sig, conds = d4_family(rng)
+        elif fam == 'multiex':
+            sig, conds = multi_exception_base(rng)
         else:
             sig, conds = weak_shape(rng)
         if want == 'any':
@@ -163,13 +202,83 @@ def gen_base(rng, want='strong', family=None, max_tries=400, **kw):
     raise RuntimeError('generator starved for %s/%s' % (want, family))
 
 
-def gen_queries(rng, sig, conds, k, extra_atom_p=0.05, depth=2):
-    """k queries (B, A): random formulas, base-derived ones, hostile ones."""
+def tie_query(rng, sig, conds):
+    """a query whose antecedent is a disjunction of 'falsifiers' of 2-3 conditionals of one layer
+    (preferably an upper one): both the verifying and the falsifying worlds must falsify one of them, which
+    produces several incomparable / minimum-cardinality falsification sets with different continuations"""
+    cls, setup, base = classify(sig, conds)
+    if setup is None or not setup.part:
+        return None
+    layers = [l for l in setup.part if len(l) >= 2]
+    if not layers:
+        return None
+    layer = layers[-1] if rng.random() < 0.7 else rng.choice(layers)
+    js = rng.sample(layer, min(len(layer), rng.randint(2, 3)))
+    A = None
+    for j in js:
+        Bj, Aj = conds[j]
+        t = And(Aj, Not(Bj))
+        if rng.random() < 0.3:
+            t = And(t, fml.rand_formula(rng, sig, 0, 0.0))
+        A = t if A is None else Or(A, t)
+    r = rng.random()
+    if r < 0.4:
+        B = fml.rand_formula(rng, sig, 0, 0.0)
+    elif r < 0.7:
+        Bq, _ = rng.choice(conds)
+        B = Bq if rng.random() < 0.5 else Not(Bq)
+    else:
+        B = fml.rand_formula(rng, sig, 2, 0.0)
+    return (B, A)
+
+
+def deepen(rng, f, sig, levels=None):
+    """an equivalent formula nested `levels` deep (so that printed forms are long / abbreviated)"""
+    levels = levels or rng.randint(6, 9)
+    for _ in range(levels):
+        y = V(rng.choice(sig))
+        f = And(f, Or(y, Not(y))) if rng.random() < 0.5 else Or(f, And(y, Not(y)))
+    return f
+
+
+def deep_twins(rng, sig, conds):
+    """two DIFFERENT queries that are identical down to nesting depth >= 6 (same wrapper, different core):
+    anything keyed by an abbreviated printed form confuses them"""
+    levels = [(rng.random() < 0.5, rng.choice(sig)) for _ in range(rng.randint(6, 9))]
+
+    def wrap(f):
+        for conj, a in levels:
+            y = V(a)
+            f = And(f, Or(y, Not(y))) if conj else Or(f, And(y, Not(y)))
+        return f
+    if len(conds) >= 2 and rng.random() < 0.7:
+        (B1, A1), (B2, A2) = rng.sample(conds, 2)
+        B = B1 if rng.random() < 0.5 else fml.rand_formula(rng, sig, 0, 0.0)
+        x, y = A1, A2
+    else:
+        B = fml.rand_formula(rng, sig, 0, 0.0)
+        x, y = fml.rand_formula(rng, sig, 1, 0.0), fml.rand_formula(rng, sig, 1, 0.0)
+    if rng.random() < 0.5:
+        return (B, wrap(x)), (B, wrap(y))
+    return (wrap(x), B), (wrap(y), B)
+
+
+def gen_queries(rng, sig, conds, k, extra_atom_p=0.05, depth=2, p_tie=0.2, p_deep=0.04):
+    """k queries (B, A): random formulas, base-derived ones, tie-forcing ones, hostile ones."""
     qs = []
     pool = list(sig)
     for _ in range(k):
         r = rng.random()
         s = pool + (['z'] if rng.random() < extra_atom_p else [])
+        if conds and rng.random() < p_tie:
+            q = tie_query(rng, sig, conds)
+            if q is not None:
+                qs.append(q)
+                continue
+        if conds and rng.random() < p_deep:
+            B, A = rng.choice(conds)
+            qs.append((B, deepen(rng, A, pool)))
+            continue
         if r < 0.15 and conds:                      # own conditional
             qs.append(rng.choice(conds))
         elif r < 0.30 and conds:                    # strengthened antecedent
